@@ -313,14 +313,7 @@ func checkRoundTrip(res *vlib.Result, typ webrtc.SDPType, text, caseID string) (
 
 func TestVerifC13(t *testing.T) {
 	res := vlib.NewResult("C13", "api-c13", "round trip: 4 SDP types x PRNG valid-UTF-8 text (controls, quotes, HTML characters, U+2028/9, astral), non-trivial = text with a character encoding/json escapes or a multi-byte rune, distinct by (type, text hash); totality: enumerated (type member x sdp member x order x duplicates) documents over every JSON kind, PRNG objects from a JSON grammar (escaped/case-variant keys, nesting), every truncation and byte mutations of valid documents, non-JSON, huge/nested input, non-trivial = document that decodes to a JSON object (member handling reached), distinct by document hash")
-	defer func() {
-		// a panic outside a guarded call (unguarded code under test, or a harness
-		// bug) must never end as a complete, clean result
-		if e := recover(); e != nil {
-			res.Violate("panic:outside-guard", fmt.Sprintf("panic outside a guarded call: %v\n%s", e, vlib.ShortStack()), map[string]interface{}{"case": "harness"})
-		}
-		res.Finish()
-	}()
+	defer res.Finish() // vlib records a panic outside any guard as violation "panic:outside-guard"
 	root := vlib.NewRand(vlib.Seed()).Split("c13")
 
 	// 1. round trip
